@@ -545,7 +545,7 @@ def c17_plan(tier, seed):
 def c17_require(agg):
     st = agg["stats"]
     need = []
-    for k, n in (("stop_shutdown", 100), ("stop_proxy-drop", 50), ("racing_add_route_threads", 50), ("callback_invocations", 1000)):
+    for k, n in (("stop_shutdown", 100), ("stop_proxy-drop", 50), ("racing_add_route_threads", 50), ("racing_add_route_calls", 3000), ("callback_invocations", 1000)):
         if st.get(k, 0) < n:
             need.append("%s < %d" % (k, n))
     return need
